@@ -760,6 +760,8 @@ class Terms:
             if it.get("k") in ("array", "tuple", "agg"):
                 ops = [self._prom_op(o) for o in it.get("ops", [])]
                 return (it["k"],) + tuple(ops)
+            if it.get("k") == "call":
+                return ("call", it["callee"], tuple(self._prom_op(o) for o in it.get("args", [])))
         return ("promoted", idx)
 
     def _prom_op(self, o):
